@@ -378,6 +378,16 @@ pub fn run_c12(tier: Tier) -> i32 {
     for s in scaling_specs(&mut r, tier.pick(60, 600)) {
         specs.push(("scaling", s));
     }
+    // right contexts whose automaton is exponentially larger than the regex: "the k-th character
+    // after some `;`" (`_* ';' _ _ … _`, 2^k+ states for k = 9..11)
+    for k in tier.pick(9usize..=10, 9usize..=11) {
+        let mut c = cat(oracle::re::star(Re::Any), Re::Char(';'));
+        for _ in 0..k {
+            c = cat(c, Re::Any);
+        }
+        let rules = vec![(Re::Char('#'), Some(c)), (Re::Char('#'), None), (plus(Re::Set(vec![SetItem::R('a', 'z'), SetItem::C(';')])), None)];
+        specs.push(("scaling", crate::props2::simple_spec(rules, k % 2 == 0, vec![])));
+    }
     // several lexers in one module: 2-3 table-using lexers side by side
     let big = gen::spec_strategy(&p_bigclass());
     let mut multi: Vec<Vec<Spec>> = vec![];
@@ -426,6 +436,12 @@ pub fn run_c12(tier: Tier) -> i32 {
     let rev: Vec<String> = defs.iter().rev().cloned().collect();
     let mut second = pipe::expand_all_opt(&rev, EXPAND_BUDGET, false, false, 12);
     second.reverse();
+    // third pass: the same pipeline built WITHOUT debug assertions and overflow checks (the way a
+    // release build of a user's crate builds the macro); the code must be the same
+    pipe::ensure_plain_built();
+    pipe::use_plain_build(true);
+    let third = pipe::expand_all_opt(&defs, EXPAND_BUDGET, false, false, 12);
+    pipe::use_plain_build(false);
 
     let mut violations: Vec<(String, String)> = vec![]; // (definition, reason)
     let mut slowest = 0.0f64;
@@ -435,6 +451,20 @@ pub fn run_c12(tier: Tier) -> i32 {
     for (i, ((a, ta), (b, _))) in first.iter().zip(second.iter()).enumerate() {
         slowest = slowest.max(*ta);
         let def = &defs[i];
+        if let (Expand::Ok { hash, .. }, Some((c, _))) = (a, third.get(i)) {
+            match c {
+                Expand::Ok { hash: h3, .. } if h3 == hash => {}
+                Expand::Ok { .. } => violations.push((
+                    def.clone(),
+                    "the expansion differs between a macro built with and one built without debug assertions / overflow checks".to_string(),
+                )),
+                Expand::Timeout(_) => {}
+                other => violations.push((
+                    def.clone(),
+                    format!("the macro built without debug assertions / overflow checks does not expand this definition: {}", other.short()),
+                )),
+            }
+        }
         match a {
             Expand::Ok { hash, .. } => match b {
                 Expand::Ok { hash: h2, .. } if h2 == hash => {}
@@ -1529,7 +1559,20 @@ pub fn replay(v: &Value) -> i32 {
     let res = w.expand_opt(&def_body, false, true, EXPAND_BUDGET * 2);
     println!("expansion: {}", res.short());
     let expect_reject = v["expect"].as_str() == Some("rejected") || v["reason"].as_str().map(|r| r.contains("expected rejection")).unwrap_or(false);
-    let bad = if expect_reject { !res.rejected() } else { !res.is_ok() };
+    let mut bad = if expect_reject { !res.rejected() } else { !res.is_ok() };
+    if !bad && !expect_reject && v["reason"].as_str().map(|r| r.contains("without debug assertions")).unwrap_or(false) {
+        // the same definition through the build without debug assertions / overflow checks
+        pipe::ensure_plain_built();
+        pipe::use_plain_build(true);
+        let mut w2 = Worker::new();
+        let res2 = w2.expand_opt(&def_body, false, true, EXPAND_BUDGET * 2);
+        pipe::use_plain_build(false);
+        println!("expansion (no debug assertions): {}", res2.short());
+        bad = match (&res, &res2) {
+            (Expand::Ok { hash: a, .. }, Expand::Ok { hash: b, .. }) => a != b,
+            _ => true,
+        };
+    }
     if bad {
         println!("VIOLATION property={} replay=<given file>", prop);
         1
